@@ -78,7 +78,7 @@ PROPS = {
                       "itself checked by the trace comparison"],
         rule=("the generic Rust decoders flooding::Decoder<Trace<A>> / horizontal_layered::Decoder<Trace<A>> with checker-supplied arithmetics A in {IntMinSum, "
               "Affine (asymmetric: every value depends on source index, slot position and degree; emits in reverse order)}: 1500 (40000 thorough) (matrix <= 30/120 "
-              "columns, LLR vector, limit) triples; compared exactly: the FULL call trace (order of check / variable / layer rule calls, every incoming list with "
+              "columns — a quarter of them with checks of weight 1 or 0 —, LLR vector, limit) triples; compared exactly: the FULL call trace (order of check / variable / layer rule calls, every incoming list with "
               "sources, every emitted list, returned LLRs) and the final verdict/word/iterations against the textbook reference, plus the buffer model against the "
               "reference; non-trivial = at least one full iteration executed; distinct = distinct canonical input"),
         assumptions=COMMON_ASSUME,
@@ -126,10 +126,13 @@ PROPS = {
               "k in [-131,131], random magnitudes of every class and arbitrary random bit patterns; clip on ~9600 i16 values incl. all |x| <= 130; variable rule "
               "with degrees 0..200 (257 thorough) incl. all-127 / all--127 / alternating vectors and the overflow boundary (257 ok, 258+ must panic on both sides); "
               "layered primitive on random states inside the envelope and on envelope-boundary states; exact comparison with the model + the saturating-sum and "
-              "layered-equals-flooding predicates evaluated on the implementation output; non-trivial = degree >= 1 (var) / >= 2 (layer); distinct = distinct input"),
+              "layered-equals-flooding predicates evaluated on the implementation output; float types: variable rule (degrees 0-40) bit for bit, and 6000 (100000) "
+              "SEQUENCES of 2-5 layered updates on ONE arithmetic object with alternating high / low check degrees (exposes stale scratch buffers), each update "
+              "compared with the flooding rule on the extrinsic values; non-trivial = degree >= 1 (var) / >= 2 (layer); distinct = distinct input"),
         assumptions=COMMON_ASSUME,
-        partial=["float layered primitives (update_check_messages_and_vars of the 8 float types) are not compared separately (they are exercised through the "
-                 "HL decoders in C01/C10/C18 only); the float variable rule is compared bit for bit (Float / Float32 instances) but has no theorem beyond its definition",
+        partial=["float rules: the variable rule is compared bit for bit (Float / Float32 instances) and the layered primitive against 'flooding rule on the "
+                 "extrinsic values, then add' (sequences of updates on one arithmetic object, tanh-domain tolerance) — both without a theorem beyond the real-semantics "
+                 "identities of C04Real",
                  "envelope invariant |var| <= 127*(deg+1) over whole layered iterations (end-to-end no-overflow for the 4 HL 8-bit names) not yet proved"],
     ),
     "C08": dict(
